@@ -560,9 +560,7 @@ def judge_reuse(spec, run):
             bad.append("loky call %s with n_jobs=%d%s: %d tasks were running at the same time" % (c["path"], eff, after, hw))
         elif timeouts == 0 and hw != min(eff, m):
             bad.append("loky call %s with n_jobs=%d%s: %d tasks but at most %d ever ran together" % (c["path"], eff, after, m, hw))
-        pids = {e["pid"] for e in starts}
-        if eff > 1 and len(pids) > eff:
-            bad.append("loky call %s with n_jobs=%d%s used %d worker processes" % (c["path"], eff, after, len(pids)))
+        # (the number of distinct pids is not judged here: workers may legitimately be replaced while the executor is resized)
         prev = n
     return bad, stats
 
